@@ -573,3 +573,214 @@ pub fn c05(rng: &mut Rng, thorough: bool, idx: u64) -> Spec {
     spec.oracles = vec!["c05_roles".into(), "liveness".into()];
     spec
 }
+
+// ------------------------------------------------------------------------------------------
+// C19: plugins
+// ------------------------------------------------------------------------------------------
+
+const INTERCEPT_RULE: &str = "select current_database() as a, current_schemas(false) as b";
+
+fn spell_table(rng: &mut Rng, listed: bool) -> (String, &'static str) {
+    let base = if listed { *rng.pick(&["secret", "pg_user"]) } else { *rng.pick(&["open_t", "secrets", "my_secret"]) };
+    match rng.below(9) {
+        8 => (format!("db.public.{}", base), "database_qualified"),
+        0 | 1 => (base.to_string(), "plain"),
+        2 => (base.to_ascii_uppercase(), "upper"),
+        3 => {
+            let mut c = base.chars();
+            let f = c.next().unwrap().to_ascii_uppercase();
+            (format!("{}{}", f, c.as_str()), "capitalised")
+        }
+        4 => (format!("\"{}\"", base), "quoted"),
+        5 => (format!("public.{}", base), "qualified"),
+        6 => (format!("\"public\".\"{}\"", base), "qualified_quoted"),
+        _ => (format!("PUBLIC.{}", base.to_ascii_uppercase()), "qualified_upper"),
+    }
+}
+
+/// A statement that mentions relation `rel` in one of the positions a relation can appear in.
+fn relation_statement(rng: &mut Rng, rel: &str, tag: &str) -> (String, &'static str) {
+    match rng.below(12) {
+        0 => (format!("SELECT '{}' FROM {}", tag, rel), "from"),
+        1 => (format!("SELECT '{}' FROM open_t o JOIN {} s ON s.id = o.id", tag, rel), "join"),
+        2 => (format!("SELECT '{}' FROM open_t WHERE id IN (SELECT id FROM {})", tag, rel), "subquery_in"),
+        3 => (format!("SELECT '{}' FROM (SELECT * FROM {}) s", tag, rel), "subquery_from"),
+        4 => (format!("WITH c AS (SELECT * FROM {}) SELECT '{}' FROM c", rel, tag), "cte"),
+        5 => (format!("INSERT INTO {} (v) VALUES ('{}')", rel, tag), "insert_target"),
+        6 => (format!("UPDATE {} SET v = '{}'", rel, tag), "update_target"),
+        7 => (format!("DELETE FROM {} WHERE v = '{}'", rel, tag), "delete_target"),
+        8 => (format!("DELETE FROM open_t USING {} s WHERE s.v = '{}'", rel, tag), "delete_using"),
+        9 => (format!("INSERT INTO open_t (v) SELECT '{}' FROM {}", tag, rel), "insert_select"),
+        10 => (format!("SELECT '{}' WHERE EXISTS (SELECT 1 FROM {})", tag, rel), "exists"),
+        _ => (format!("UPDATE open_t SET v = '{}' FROM {} s WHERE s.id = open_t.id", tag, rel), "update_from"),
+    }
+}
+
+fn ext(sql: String, name: &str) -> Vec<FrontMsg> {
+    vec![
+        FrontMsg::P { name: name.into(), sql, types: vec![] },
+        FrontMsg::B { portal: String::new(), stmt: name.into(), fmt: vec![], params: vec![], rfmt: vec![], binary_hex: false },
+        FrontMsg::E { portal: String::new(), max: 0 },
+    ]
+}
+
+/// C19: table_access with two listed tables, an intercept rule, the query logger; statements that
+/// mention a listed or an unlisted relation in 12 positions and 7 spellings, alone, in
+/// multi-statement messages, in Parse..Sync batches with several Parses, inside transactions,
+/// with named statements executed later (statement cache on); control runs with plugins off.
+pub fn c19(rng: &mut Rng, thorough: bool, idx: u64) -> Spec {
+    let plugins_on = idx % 4 != 3;
+    let cache_on = rng.chance(0.4);
+    let mut cfg = single_pool("transaction", 2, 0);
+    cfg.set("connect_timeout", 5000);
+    cfg.pools[0].query_parser_enabled = true;
+    if cache_on {
+        cfg.pools[0].cache_size = 8;
+    }
+    let per_pool = rng.chance(0.5);
+    let prefix = if per_pool { "pools.db.plugins" } else { "plugins" };
+    let body = format!(
+        "\n[{p}]\n\n[{p}.query_logger]\nenabled = {ql}\n\n[{p}.table_access]\nenabled = {on}\ntables = [\"secret\", \"pg_user\"]\n\n[{p}.intercept]\nenabled = {on}\n\n[{p}.intercept.queries.0]\nquery = \"{rule}\"\nschema = [[\"a\", \"text\"], [\"b\", \"text\"]]\nresult = [[\"${{DATABASE}}\", \"{{public}}\"]]\n",
+        p = prefix,
+        ql = rng.chance(0.5),
+        on = plugins_on,
+        rule = INTERCEPT_RULE
+    );
+    if per_pool {
+        cfg.pools[0].plugins = Some(body);
+    } else {
+        cfg.plugins = Some(body);
+    }
+    let nclients = rng.range(1, 2) as u32;
+    let mut plan = serde_json::Map::new();
+    let mut clients = Vec::new();
+    for id in 1..=nclients {
+        let mut p = Prog::new(id);
+        let n = rng.range(4, if thorough { 20 } else { 10 });
+        let mut named = 0u32;
+        for _ in 0..n {
+            p.new_txn();
+            let listed = rng.chance(0.6);
+            let (rel, spelling) = spell_table(rng, listed);
+            let t = p.tag();
+            let (sql, position) = relation_statement(rng, &rel, &t);
+            let mut entry = serde_json::json!({"listed": listed, "spelling": spelling, "position": position});
+            match rng.below(10) {
+                0 | 1 | 2 => {
+                    entry["where"] = serde_json::json!("simple");
+                    plan.insert(t, entry);
+                    p.simple(sql);
+                }
+                3 => {
+                    // multi-statement message; the statement is first, in the middle or last
+                    let t2 = p.tag();
+                    let other = format!("SELECT '{}'", t2);
+                    plan.insert(t2, serde_json::json!({"listed": false, "companion": true}));
+                    let msg = match rng.below(3) {
+                        0 => format!("{}; {}", sql, other),
+                        1 => format!("{}; {}", other, sql),
+                        _ => format!("SELECT 1; {}; {}", sql, other),
+                    };
+                    entry["where"] = serde_json::json!("multi_statement");
+                    plan.insert(t, entry);
+                    p.simple(msg);
+                }
+                4 => {
+                    // inside a transaction, simple protocol
+                    let tb = p.tag();
+                    plan.insert(tb.clone(), serde_json::json!({"listed": false, "companion": true}));
+                    p.simple(format!("BEGIN /* {} */", tb));
+                    entry["where"] = serde_json::json!("in_transaction_simple");
+                    plan.insert(t, entry);
+                    p.simple(sql);
+                    let tc = p.tag();
+                    plan.insert(tc.clone(), serde_json::json!({"listed": false, "companion": true}));
+                    p.simple(format!("ROLLBACK /* {} */", tc));
+                }
+                5 | 6 => {
+                    entry["where"] = serde_json::json!("extended");
+                    plan.insert(t, entry);
+                    let mut m = ext(sql, "");
+                    m.push(FrontMsg::S);
+                    p.send(m);
+                }
+                7 => {
+                    // batch with several Parses before one Sync: the statement first or last
+                    let t2 = p.tag();
+                    plan.insert(t2.clone(), serde_json::json!({"listed": false, "companion": true}));
+                    let other = format!("SELECT '{}'", t2);
+                    let first = rng.chance(0.5);
+                    entry["where"] = serde_json::json!(if first { "batch_first" } else { "batch_last" });
+                    plan.insert(t, entry);
+                    let mut m = Vec::new();
+                    if first {
+                        m.extend(ext(sql, ""));
+                        m.extend(ext(other, ""));
+                    } else {
+                        m.extend(ext(other, ""));
+                        m.extend(ext(sql, ""));
+                    }
+                    m.push(FrontMsg::S);
+                    p.send(m);
+                }
+                8 => {
+                    // inside a transaction, extended protocol
+                    let tb = p.tag();
+                    plan.insert(tb.clone(), serde_json::json!({"listed": false, "companion": true}));
+                    p.simple(format!("BEGIN /* {} */", tb));
+                    entry["where"] = serde_json::json!("in_transaction_extended");
+                    plan.insert(t, entry);
+                    let mut m = ext(sql, "");
+                    m.push(FrontMsg::S);
+                    p.send(m);
+                    let tc = p.tag();
+                    plan.insert(tc.clone(), serde_json::json!({"listed": false, "companion": true}));
+                    p.simple(format!("ROLLBACK /* {} */", tc));
+                }
+                _ => {
+                    // named statement prepared now, executed in a later batch
+                    named += 1;
+                    let name = format!("n{}", named);
+                    entry["where"] = serde_json::json!("named_parse_then_later_bind");
+                    plan.insert(t, entry);
+                    p.send(vec![FrontMsg::P { name: name.clone(), sql, types: vec![] }, FrontMsg::S]);
+                    p.think(rng.range(0, 10));
+                    p.send(vec![
+                        FrontMsg::B { portal: String::new(), stmt: name.clone(), fmt: vec![], params: vec![], rfmt: vec![], binary_hex: false },
+                        FrontMsg::E { portal: String::new(), max: 0 },
+                        FrontMsg::S,
+                    ]);
+                }
+            }
+            if rng.chance(0.25) {
+                // the intercepted query, in some spelling
+                p.new_txn();
+                let t = p.tag();
+                let q = match rng.below(4) {
+                    0 => format!("{} /* {} */", INTERCEPT_RULE, t),
+                    1 => format!("SELECT current_database() AS a, current_schemas(false) AS b /* {} */", t),
+                    2 => format!("select   current_database()   as a ,\n current_schemas(false) as b -- {}", t),
+                    _ => format!("/* {} */ Select Current_Database() As a, Current_Schemas(FALSE) As b;", t),
+                };
+                plan.insert(t, serde_json::json!({"intercept": true}));
+                p.simple(q);
+            }
+            if rng.chance(0.2) {
+                p.think(rng.range(0, 15));
+            }
+        }
+        p.steps.push(Step::Terminate);
+        let mut c = client(id, "app", "db", "apppw", rng.range(0, 30), p.steps);
+        c.patience_ms = 30_000;
+        clients.push(c);
+    }
+    let net = if rng.chance(0.5) { net_calm() } else { net_swarm(rng) };
+    let mut spec = Spec { config_toml: cfg.render(), hosts: cfg.hosts(), net, clients, end: EndSpec { deadline_ms: 900_000, calm_ms: 20 }, ..Default::default() };
+    spec.params = params_from(&cfg);
+    spec.params.insert("plugins_on".into(), serde_json::json!(plugins_on));
+    spec.params.insert("cache_on".into(), serde_json::json!(cache_on));
+    spec.params.insert("c19_plan".into(), serde_json::Value::Object(plan));
+    spec.family = format!("plugins/{}{}{}", if plugins_on { "enabled" } else { "disabled" }, if per_pool { "/per_pool" } else { "/global" }, if cache_on { "/cache" } else { "" });
+    spec.oracles = vec!["c19_plugins".into(), "liveness".into()];
+    spec
+}
